@@ -233,7 +233,7 @@ Definition fresh : state := init_state [] None None.
 (* Static well-formedness of syntax trees in the structured fragment: the
    value_is_used flags are as the parser sets them (parser.rs
    `set_is_used_expr` / `set_is_used_block`), and the expression uses no
-   for/break/continue/return/closure literal/match. *)
+   for/break/continue/closure literal (return and match are in). *)
 Definition is_some {A} (o : option A) : bool := match o with Some _ => true | None => false end.
 
 Fixpoint wf (e : expr) : bool :=
@@ -262,6 +262,15 @@ Fixpoint wf (e : expr) : bool :=
   | EList _ l | ETuple _ l => all_used l
   | ECall _ f args => eused f && wf f && all_used args
   | EParen m inner => Bool.eqb (eused inner) (used m) && wf inner
+  | EReturn _ None => true
+  | EReturn _ (Some x) => eused x && wf x
+  | EMatch m sc cases =>
+      eused sc && wf sc &&
+      (fix all_cases (l : list (ident * (N * N) * option ident * list expr)) : bool :=
+         match l with
+         | [] => true
+         | c :: l' => stmts (used m) (snd c) && all_cases l'
+         end) cases
   | _ => false
   end.
 
